@@ -1,11 +1,52 @@
-/- Oracle operations, group Keys (see /verif/CONVENTIONS.md). -/
+/- Oracle operations, group Keys (C10: WIF and extended keys; BIP38 is not modelled here yet).
+   Strings travel as the hex of their bytes. -/
 import BtcVerif.Oracle.Util
+import BtcVerif.Model.Wif
+import BtcVerif.Model.XKey
+import BtcVerif.Prim.SHA256
+import BtcVerif.Prim.Secp256k1
 
 namespace BtcVerif.Oracle
 open BtcVerif
 
+def keysCk (x : Bytes) : Bytes := (Prim.dsha256 x).take 4
+
+/-- the public-key check of `bip32.Deserialize`: a 33-byte compressed point on the curve -/
+def keysPubOk (k : Bytes) : Bool := (Prim.Secp256k1.parsePoint k).isSome
+
+def flagOf : String → Option Bool
+  | "0" => some false
+  | "1" => some true
+  | _ => none
+
 def opKeys (op : String) (args : List String) : Option String :=
   match op, args with
+  | "wif.enc", [k, v, c] => do
+    let k ← parseHex k
+    let v ← v.toNat?
+    let c ← flagOf c
+    if v ≥ 256 then none else
+    some (outcomeStr hexOf (Model.Wif.encode keysCk k v c))
+  | "wif.dec", [s] => do
+    let s ← parseHex s
+    some (outcomeStr (fun r => s!"{hexOf r.1} {r.2.1} {if r.2.2 then 1 else 0}") (Model.Wif.decode keysCk s))
+  | "wif.validate", [s] => do
+    let s ← parseHex s
+    some (if Model.Wif.validate keysCk s then "ok 1" else "ok 0")
+  | "xkey.ser", [p, k, cc, fp, d, i, v] => do
+    let p ← flagOf p
+    let k ← parseHex k
+    let cc ← parseHex cc
+    let fp ← parseHex fp
+    let d ← d.toNat?
+    let i ← i.toNat?
+    let v ← v.toNat?
+    if d ≥ 256 ∨ i ≥ 4294967296 ∨ v ≥ 4294967296 then none else
+    some ("ok " ++ hexOf (Model.XKey.serialize keysCk k cc fp d i v p))
+  | "xkey.deser", [s] => do
+    let s ← parseHex s
+    some (outcomeStr (fun r => s!"{hexOf r.key} {hexOf r.chainCode} {hexOf r.parentFingerprint} {r.depth} {r.index} {r.version}")
+      (Model.XKey.deserialize keysCk keysPubOk s))
   | _, _ => none
 
 end BtcVerif.Oracle
